@@ -80,6 +80,28 @@ func c16Table() []c16Entry {
 		{E + "/domains.PackageDomainAtDepth", true, func(d int) interface{} { c16Mark(); return domains.PackageDomainAtDepth(d) }},
 		{E + "/domains.New", false, func(d int) interface{} { c16Mark(); return domains.New("x") }},
 		{E + "/domains.Handled", false, func(d int) interface{} { c16Mark(); return domains.Handled(c16Base) }},
+		// the same constructors on their other code paths: %w in the format, error arguments, empty message
+		{E + ".Newf#w", false, func(d int) interface{} { c16Mark(); return errors.Newf("x: %w", c16Base) }},
+		{E + ".Errorf#w", false, func(d int) interface{} { c16Mark(); return errors.Errorf("x: %w", c16Base) }},
+		{E + ".NewWithDepthf#w", true, func(d int) interface{} { c16Mark(); return errors.NewWithDepthf(d, "x: %w", c16Base) }},
+		{E + ".NewWithDepthf#v", true, func(d int) interface{} { c16Mark(); return errors.NewWithDepthf(d, "x: %v", c16Base) }},
+		{E + ".AssertionFailedf#w", false, func(d int) interface{} { c16Mark(); return errors.AssertionFailedf("x: %w", c16Base) }},
+		{E + ".AssertionFailedWithDepthf#w", true, func(d int) interface{} {
+			c16Mark()
+			return errors.AssertionFailedWithDepthf(d, "x: %w", c16Base)
+		}},
+		{E + "/errutil.Newf#w", false, func(d int) interface{} { c16Mark(); return errutil.Newf("x: %w", c16Base) }},
+		{E + "/errutil.NewWithDepthf#w", true, func(d int) interface{} { c16Mark(); return errutil.NewWithDepthf(d, "x: %w", c16Base) }},
+		{E + ".Wrap#empty", false, func(d int) interface{} { c16Mark(); return errors.Wrap(c16Base, "") }},
+		{E + ".Wrapf#empty", false, func(d int) interface{} { c16Mark(); return errors.Wrapf(c16Base, "") }},
+		{E + ".Wrapf#v", false, func(d int) interface{} { c16Mark(); return errors.Wrapf(c16Base, "x %v", c16Base) }},
+		{E + ".WrapWithDepthf#v", true, func(d int) interface{} { c16Mark(); return errors.WrapWithDepthf(d, c16Base, "x %v", c16Base) }},
+		{E + ".WrapWithDepth#empty", true, func(d int) interface{} { c16Mark(); return errors.WrapWithDepth(d, c16Base, "") }},
+		{E + ".NewAssertionErrorWithWrappedErrf#empty", false, func(d int) interface{} {
+			c16Mark()
+			return errors.NewAssertionErrorWithWrappedErrf(c16Base, "")
+		}},
+		{E + ".Join#nil", false, func(d int) interface{} { c16Mark(); return errors.Join(nil, c16Base, nil) }},
 	}
 }
 
@@ -128,7 +150,9 @@ func runC16(res *Result) {
 	names := []string{}
 	for _, ent := range tbl {
 		ent := ent
-		names = append(names, ent.name)
+		if !strings.Contains(ent.name, "#") {
+			names = append(names, ent.name)
+		}
 		maxd := 0
 		if ent.hasDepth {
 			maxd = 3
@@ -183,7 +207,7 @@ func runC16(res *Result) {
 					continue
 				}
 				if fn != want.fn {
-					res.fail(cse, "C16.first_frame", fmt.Sprintf("first frame %q want %q (depth %d)", fn, want.fn, d), "C16:frame:"+ent.name)
+					res.fail(cse, "C16.first_frame", fmt.Sprintf("first frame %q want %q (depth %d)", fn, want.fn, d), "C16:frame:"+strings.SplitN(ent.name, "#", 2)[0])
 				}
 				// GetOneLineSource reports the innermost recorded frame
 				res.OracleEvals["C16.one_line_source"]++
@@ -195,7 +219,7 @@ func runC16(res *Result) {
 				// the innermost stack layer is the one we just created (the base error has none)
 				if !okS || file != filepath.Base(want.file) || !strings.HasSuffix(want.fn, sfn) || sfn == "" {
 					_ = short
-					res.fail(cse, "C16.one_line_source", fmt.Sprintf("got (%q,%q,%v) want file %q fn suffix of %q", file, sfn, okS, filepath.Base(want.file), want.fn), "C16:source:"+ent.name)
+					res.fail(cse, "C16.one_line_source", fmt.Sprintf("got (%q,%q,%v) want file %q fn suffix of %q", file, sfn, okS, filepath.Base(want.file), want.fn), "C16:source:"+strings.SplitN(ent.name, "#", 2)[0])
 				}
 			default:
 				res.fail(cse, "C16.harness", fmt.Sprintf("unexpected result %T", got), "C16:harness")
